@@ -87,13 +87,25 @@ theorem C13_failed_attempt_means_full (m : Method) (fd : Fd) (hcap : 0 < fd.cap)
 `MSG_DONTWAIT` (their own flags are left alone) -/
 theorem C13_classify_frame (fd : Fd) :
     (classify fd).2.fill = fd.fill ∧ (classify fd).2.cap = fd.cap ∧ (classify fd).2.kind = fd.kind ∧
-    (fd.kind ≠ .pipe → (classify fd) = (.send, fd)) ∧ (fd.kind = .pipe → (classify fd).1 = .write) := by
+    ((fd.kind = .stream ∨ fd.kind = .dgram) → (classify fd) = (.send, fd)) ∧ (fd.kind = .pipe → (classify fd).1 = .write) := by
   obtain ⟨k, nb, fl, cp, cl⟩ := fd
   cases k
   · simp [classify, probe]
   · simp [classify, probe]
   · simp only [classify, probe]
     by_cases h : fl < cp <;> simp [h]
+  · simp [classify, probe]
+
+/-- **C13.rejected_registration_closes_once** — when `set_flags` fails (a descriptor that is not a
+socket and refuses `F_SETFL`), the registration is rejected and the descriptor handed over is
+closed exactly once, by the drop of the `WakeFd` that already owns it; otherwise nothing is closed
+by `register_raw` itself. -/
+theorem C13_rejected_registration_closes_once (fd : Fd) :
+    ((prepare fd).1 = none → (prepare fd).2.closes = fd.closes + 1 ∧ fd.kind = .other) ∧
+    ((prepare fd).1 ≠ none → (prepare fd).2.closes = fd.closes) := by
+  obtain ⟨k, nb, fl, cp, cl⟩ := fd
+  cases k <;> simp [prepare, probe, setFlagsOk]
+  all_goals (try (split <;> simp))
 
 /-- closing happens through exactly one `drop` of the owning action (C01: released exactly once
 by the remover; C14: released on every rejection path): one `close` per owner -/
